@@ -2,9 +2,10 @@
 from contracts import roms_grid as G
 from contracts import tracker as T
 
-UNITS = [G.Depth(), T.DiffuseVert(), T.Update(""), T.Update("RK4")]
+UNITS = [G.Depth(), T.DiffuseVert(), T.Update(""), T.Update("RK4")] + list(T.TRACKER_INIT_UNITS[2:4])
 LEMMAS = []
-NATIVE = [dict(name="run-time contract of the tracking step on random coastlines (real Tracker, real ROMS Grid)", harness="tracker_step_bounded", kind="bounded")]
+NATIVE = [dict(name="run-time contract of the tracking step on random coastlines (real Tracker, real ROMS Grid)", harness="tracker_step_bounded", kind="bounded"),
+          dict(name="histories of tracking steps (consecutive updates, same-count replacement, release) on a grid with cell-wise metric and depth: every update equals the scheme applied to the state before it", harness="tracker_history_bounded", kind="bounded")]
 LEVEL = "proof"
 LEVEL_TEXT = ("Deductive proof per particle over reals: with a vertical switch on, Z' is the surface/bottom reflection of Z + (Wdiff + w)*dt with h the depth of the start cell, "
               "and 0 <= Z' <= h whenever 0 <= Z <= h and |displacement| < h; with both switches off the depth values are unchanged. Grid.depth is the start cell's H, index in bounds.")
